@@ -1,7 +1,7 @@
 # Per-property configuration of bin/check: Lean modules holding the property theorems, level, notes.
 PROPS = {
     "C20": {
-        "lean": ["Knut.Properties.C20", "Knut.Properties.C20Periods", "Knut.Properties.C20Balance", "Knut.FactsAgree.TransPerformance", "Knut.FactsAgree.TransPerformanceFlows", "Knut.FactsAgree.TransPerformanceDay", "Knut.FactsAgree.TransWeights", "Knut.FactsAgree.TransWeightsTree", "Knut.FactsAgree.TransWeightsSort"],
+        "lean": ["Knut.Properties.C20", "Knut.Properties.C20Periods", "Knut.Properties.C20Balance", "Knut.FactsAgree.TransPerformance", "Knut.FactsAgree.TransPerformanceFlows", "Knut.FactsAgree.TransPerformanceDay", "Knut.FactsAgree.TransWeights", "Knut.FactsAgree.TransWeightsTree", "Knut.FactsAgree.TransWeightsSort", "Knut.Properties.C20Go"],
         "level": "proof",
         "claim": "PARTIAL: proof on the exact-arithmetic (Rat) model of lib/journal/performance, lib/reports/weights and the two portfolio commands + tolerance correspondence with the float64 "
                  "code. Lean theorems (all journals, windows, intervals, --last, filters, universes, mappings): C20_weights_share (each commodity is added with value / total value on a period end "
